@@ -309,8 +309,58 @@ fn bincode_scenarios() -> Vec<(String, String, String)> {
     out
 }
 
+/// typed path: a task takes two items of a stream and then drops it; the shell resolves three times
+fn typed_stream_after_consumer_gone() -> String {
+    use std::sync::atomic::{AtomicU8, Ordering};
+    static GOT: AtomicU8 = AtomicU8::new(0);
+    GOT.store(0, Ordering::SeqCst);
+    let r = std::panic::catch_unwind(|| {
+        let mut cmd: Command<Effect, Event> = Command::new(|ctx| async move {
+            use futures_lite_next::next;
+            let mut s = ctx.stream_from_shell(Op(1));
+            let a = next(&mut s).await;
+            let b = next(&mut s).await;
+            drop(s);
+            ctx.send_event(Event::Got(a.unwrap_or(200)));
+            ctx.send_event(Event::Got(b.unwrap_or(201)));
+        });
+        let mut req = cmd.effects().filter_map(|e| if let Effect::Op(r) = e { Some(r) } else { None }).next().expect("stream request");
+        let mut res = Vec::new();
+        for v in [11u8, 12, 13] {
+            res.push(if req.resolve(v).is_ok() { "Ok" } else { "Err" });
+            let _ = cmd.is_done();
+        }
+        let evs: Vec<u8> = cmd.events().map(|e| if let Event::Got(v) = e { v } else { 255 }).collect();
+        format!("{} delivered={evs:?}", res.join(","))
+    });
+    r.unwrap_or_else(|_| "PANIC".to_string())
+}
+
+/// a tiny `next` for streams (avoids a dependency on futures' StreamExt in this driver)
+mod futures_lite_next {
+    use std::future::Future;
+    use std::pin::Pin;
+    use std::task::{Context, Poll};
+    pub struct Next<'a, S: ?Sized>(&'a mut S);
+    pub fn next<S: futures_core_stream::Stream + Unpin + ?Sized>(s: &mut S) -> Next<'_, S> {
+        Next(s)
+    }
+    impl<S: futures_core_stream::Stream + Unpin + ?Sized> Future for Next<'_, S> {
+        type Output = Option<S::Item>;
+        fn poll(mut self: Pin<&mut Self>, cx: &mut Context<'_>) -> Poll<Self::Output> {
+            Pin::new(&mut *self.0).poll_next(cx)
+        }
+    }
+    pub mod futures_core_stream {
+        pub use futures_core::Stream;
+    }
+    pub use self::futures_core_stream as _s;
+}
+use futures_lite_next::futures_core_stream;
+
 fn main() {
     std::panic::set_hook(Box::new(|_| {}));
+    println!("typed-stream-after-consumer-gone REAL {} | EXPECT Ok,Ok,Err delivered=[11, 12]", typed_stream_after_consumer_gone());
     for (name, real, expect) in bincode_scenarios() {
         println!("{name} REAL {real} | EXPECT {expect}");
     }
